@@ -106,6 +106,18 @@ func c04More(c *Ctx) {
 	if fn := c.Fn("consensus", "ConsensusState", "addProposalBlockPart"); fn != nil {
 		c.Guarded(fn, "finalise once the committed block is complete", CallTo(`^`+csT+`\.tryFinalizeCommit$`, ""), G("block complete", True(`^call:\(\*types\.PartSet\)\.IsComplete\(`)), G("in the commit step", Cmp(`^cs\.RoundState\.Step$`, "==", `^const:8$`)))
 		c.Guarded(fn, "prevote once the proposal is complete", CallTo(`^`+csT+`\.enterPrevote$`, ""), G("block complete", True(`^call:\(\*types\.PartSet\)\.IsComplete\(`)), G("not past propose", Cmp(`^cs\.RoundState\.Step$`, "<=", `^const:3$`)), G("proposal complete (with its POL)", True(`isProposalComplete\(cs\)$`)))
+		// ...and on nothing else: a node that learnt the commit from precommits alone has no Proposal message, and no
+		// timeout exists in the commit step, so any further condition here leaves it stuck with the complete block
+		for _, in := range findInstrs(fn, CallTo(`^`+csT+`\.tryFinalizeCommit$`, "")) {
+			var extra []string
+			for _, d := range domConds(in) {
+				if re(`^call:\(\*types\.PartSet\)\.IsComplete\(.*=T$|^\(cs\.RoundState\.Step == const:8\)=T$|^phi\(.*IsComplete.*=T$|#0=T$|#1 (!=|==) nil\)=[TF]$|^\(cs\.RoundState\.ProposalBlockParts == nil\)=F$|^\(cs\.RoundState\.Height != .*\)=F$|^\(call:.*(Unmarshal|BlockFromProto|ReadAll|NewReader).*(!=|==) nil\)=[TF]$`).MatchString(d) {
+					continue
+				}
+				extra = append(extra, d)
+			}
+			c.Check("G", fnName(fn)+"/finalising the completed committed block depends on nothing but completion and the commit step", len(extra) == 0, instrPos(in), 1, "additional condition(s): "+strings.Join(extra, " ; "))
+		}
 		n := len(findInstrs(fn, CallTo(`^`+csT+`\.tryFinalizeCommit$`, ""))) + len(findInstrs(fn, CallTo(`^`+csT+`\.enterPrevote$`, "")))
 		c.Check("S", fnName(fn)+"/both continuations present", n == 2, fn.Pos(), n, "")
 	}
@@ -244,5 +256,7 @@ func c04More(c *Ctx) {
 		})
 		c.Check("L3", fnName(fn)+"/own messages are queued without blocking (select with default, overflow handed to a goroutine)", nb == 1, fn.Pos(), nb, "")
 	}
+	// a stale lock must be released by a later polka, including one that completes in the current round
+	lockRules(c)
 	c.LockPairing([]string{"consensus", "consensus/types"}, map[string]string{})
 }
